@@ -1,4 +1,5 @@
 import Gmx.Model.Access
+import Gmx.Model.Handover
 /-!
 # C19 — privileged instructions reject callers without the required role
 
@@ -151,6 +152,116 @@ theorem market_config_guards :
     (info .store_update_market_config_flag).attr = some [.MARKET_KEEPER, .MARKET_CONFIG_KEEPER] ∧
     (info .store_update_market_config_with_buffer).attr = some [.MARKET_KEEPER, .MARKET_CONFIG_KEEPER] := by
   decide +kernel
+
+/-! ## two-step handover of the store authority / the treasury receiver
+
+`accept_store_authority` and `accept_receiver` carry no role attribute: the privilege they require is
+*being the nominated successor*. The theorems below say that this privilege exists only between a
+nomination by the current holder and its acceptance — in particular a displaced holder has none. -/
+section Handover
+open Gmx.Handover
+
+/-- a nomination is accepted only from the current holder -/
+theorem transfer_requires_holder (s s' : Slot) (signer nxt : Nat) (h : s.transfer signer nxt = some s') :
+    signer = s.cur ∧ s'.cur = s.cur ∧ s'.next = nxt := by
+  unfold Slot.transfer at h
+  split at h
+  · cases h
+  · split at h
+    · cases h
+    · cases h; rename_i h1 _; exact ⟨by simpa using h1, rfl, rfl⟩
+
+/-- an acceptance succeeds only for the nominated key, only while a nomination is pending, and consumes it -/
+theorem accept_requires_nomination (s s' : Slot) (signer : Nat) (h : s.accept signer = some s') :
+    signer = s.next ∧ s.next ≠ s.cur ∧ s'.cur = signer ∧ s'.next = signer := by
+  unfold Slot.accept at h
+  split at h
+  · cases h
+  · split at h
+    · cases h
+    · cases h; rename_i h1 h2
+      have : signer = s.next := by simpa using h1
+      exact ⟨this, fun e => h2 e.symm, this.symm ▸ rfl, this.symm ▸ rfl⟩
+
+/-- after a handover nobody can accept again until the NEW holder nominates somebody -/
+theorem no_reaccept (s s' : Slot) (signer : Nat) (h : s.accept signer = some s') (anyone : Nat) :
+    s'.accept anyone = none := by
+  obtain ⟨_, _, hc, hn⟩ := accept_requires_nomination s s' signer h
+  unfold Slot.accept
+  split
+  · rfl
+  · simp [hc, hn]
+
+/-- a signer that is neither the holder nor the nominated successor has every instruction rejected and
+the slot unchanged -/
+theorem stranger_rejected (s : Slot) (op : Op) (h1 : op.signer ≠ s.cur) (h2 : op.signer ≠ s.next) :
+    s.step op = none := by
+  cases op with
+  | transfer sg n => simp [Slot.step, Slot.transfer, Op.signer] at *; intro h; exact absurd h h1
+  | accept sg => simp [Slot.step, Slot.accept, Op.signer] at *; intro h; exact absurd h h2
+
+/-- … for any number of attempts -/
+theorem stranger_powerless (s : Slot) (ops : List Op)
+    (h : ∀ op ∈ ops, op.signer ≠ s.cur ∧ op.signer ≠ s.next) : s.run ops = s := by
+  induction ops with
+  | nil => rfl
+  | cons op rest ih =>
+    have h0 := h op (by simp)
+    have : s.apply op = s := by simp [Slot.apply, stranger_rejected s op h0.1 h0.2]
+    simp only [Slot.run, List.foldl_cons, this]
+    exact ih (fun o ho => h o (by simp [ho]))
+
+/-- THE handover property: once `new` has accepted, the displaced holder `old` — signing any sequence of
+`transfer_*` / `accept_*` on its own — changes nothing: it is neither holder nor nominee any more. -/
+theorem displaced_holder_powerless (s s' : Slot) (new : Nat) (hacc : s.accept new = some s')
+    (ops : List Op) (hops : ∀ op ∈ ops, op.signer = s.cur) : s'.run ops = s' := by
+  obtain ⟨hs, hne, hc, hn⟩ := accept_requires_nomination s s' new hacc
+  apply stranger_powerless
+  intro op hop
+  rw [hops op hop, hc, hn, hs]
+  exact ⟨fun e => hne e.symm, fun e => hne e.symm⟩
+
+/-- the holder changes only by accepting a nomination made by the then-holder: along any history, every
+state's holder is the initial one or a key some earlier holder nominated -/
+theorem holder_was_nominated (s : Slot) (ops : List Op) :
+    (s.run ops).cur = s.cur ∨ (s.run ops).cur = s.next ∨
+      ∃ sg n, Op.transfer sg n ∈ ops ∧ (s.run ops).cur = n := by
+  induction ops generalizing s with
+  | nil => left; rfl
+  | cons op rest ih =>
+    simp only [Slot.run, List.foldl_cons]
+    have ih' := ih (s.apply op)
+    simp only [Slot.run] at ih'
+    cases hstep : s.step op with
+    | none =>
+      have e : s.apply op = s := by simp [Slot.apply, hstep]
+      rw [e] at ih' ⊢
+      rcases ih' with h | h | ⟨sg, n, hm, h⟩
+      · exact .inl h
+      · exact .inr (.inl h)
+      · exact .inr (.inr ⟨sg, n, by simp [hm], h⟩)
+    | some s1 =>
+      have e : s.apply op = s1 := by simp [Slot.apply, hstep]
+      rw [e] at ih' ⊢
+      cases op with
+      | transfer sg0 n0 =>
+        obtain ⟨_, hc, hn⟩ := transfer_requires_holder s s1 sg0 n0 hstep
+        rcases ih' with h | h | ⟨sg, n, hm, h⟩
+        · exact .inl (h.trans hc)
+        · exact .inr (.inr ⟨sg0, n0, by simp, h.trans hn⟩)
+        · exact .inr (.inr ⟨sg, n, by simp [hm], h⟩)
+      | accept sg0 =>
+        obtain ⟨hs, _, hc, hn⟩ := accept_requires_nomination s s1 sg0 hstep
+        rcases ih' with h | h | ⟨sg, n, hm, h⟩
+        · exact .inr (.inl (h.trans (hc.trans hs)))
+        · exact .inr (.inl (h.trans (hn.trans hs)))
+        · exact .inr (.inr ⟨sg, n, by simp [hm], h⟩)
+
+/-! non-vacuity: a full handover 1 → 2, after which 1 is rejected and 2 can nominate -/
+example : (Slot.init 1).run [.transfer 1 2, .accept 2] = ⟨2, 2⟩ := by decide
+example : (Slot.init 1).run [.transfer 1 2, .accept 2, .accept 1, .transfer 1 3, .accept 3] = ⟨2, 2⟩ := by decide
+example : (Slot.init 1).run [.transfer 1 2, .accept 2, .transfer 2 1, .accept 1] = ⟨1, 1⟩ := by decide
+end Handover
 
 /-! ## non-vacuity -/
 example : Guarded .store_market_transfer_in = true ∧ (info .store_market_transfer_in).attr = some [.MARKET_KEEPER] := by decide +kernel
